@@ -126,6 +126,18 @@ def finish(root, prop, tier, seed, pres, bres, t0, write_expected=False, rres=No
         if e not in table:
             undecided.append({"id": e, "why": "expected obligation was not generated (function out of reach, renamed or restructured)"})
     # ---------------- tier B
+    known_fps = {}
+    fp_path = os.path.join(root, "known_fingerprints", f"{prop}.json")
+    if os.path.exists(fp_path):
+        # recorded per tier: the quick and the thorough tier enumerate different (deterministic) input families
+        known_fps = {k: set(v) for k, v in load_json(fp_path, {}).get(tier, {}).items()}
+
+    def instance_witness(fp):
+        side = os.path.join(root, "build", f"{prop}.bounded.instances.json")
+        try:
+            return load_json(side, {}).get(fp, {}) or {}
+        except Exception:
+            return {}
     b_eval = 0
     if bres is not None:
         b_eval = bres.get("evaluations", 0)
@@ -133,6 +145,19 @@ def finish(root, prop, tier, seed, pres, bres, t0, write_expected=False, rres=No
             f = is_known(fl.get("key"))
             if f is not None:
                 known_hits.append((f, fl.get("key")))
+                # a recorded finding is identified by its INPUTS where the stand-in reports them: failing inputs of a known class
+                # that did not fail when the finding was recorded are a different violation of the same property
+                base = known_fps.get(fl.get("key"))
+                inst = fl.get("instances")
+                if base is not None and inst and inst.get("fps"):
+                    new = [x for x in inst["fps"] if x not in base]
+                    if new:
+                        wit = instance_witness(new[0])
+                        violations.append({"id": f"{fl.get('key')}#input-{new[0]}", "source": "bounded",
+                                           "clause": fl.get("clause", "") + f" [{len(new)} failing input(s) of this recorded class do not fail on the recorded tree]",
+                                           "function": fl.get("function", ""), "witness": wit.get("witness"), "observed": wit.get("observed"),
+                                           "required": wit.get("required"), "no_failing_input_found": False,
+                                           "replay_args": wit.get("witness"), "new_inputs": new[:50], "key": fl.get("key")})
             else:
                 violations.append({"id": fl.get("key"), "source": "bounded", "clause": fl.get("clause", ""),
                                    "function": fl.get("function", ""), "witness": fl.get("witness"),
